@@ -21,13 +21,10 @@ pub type Mon = ChannelMonitor<TestChannelSigner>;
 
 /// Read a monitor image; returns the monitor and the number of bytes left unread.
 pub fn read_mon(bytes: &[u8], keys: &TestKeysInterface) -> Result<(Mon, usize), DecodeError> {
-	let t0 = std::time::Instant::now();
 	let mut r = bytes;
 	let (_, m) = <(BlockLocator, Mon)>::read(&mut r, (keys, keys))?;
-	T_READ.with(|t| { let mut t = t.borrow_mut(); t.0 += 1; t.1 += t0.elapsed().as_micros() as u64; t.2 += bytes.len() as u64; });
 	Ok((m, r.len()))
 }
-thread_local! { pub static T_READ: std::cell::RefCell<(u64,u64,u64)> = std::cell::RefCell::new((0,0,0)); }
 
 /// Byte histogram: two encodings of equal objects may order hash-map entries differently (LDK's maps are
 /// randomly keyed per instance) but must consist of the same bytes.
